@@ -3,7 +3,7 @@
 
     The correctness of sifting itself ([reorder None = apply_sifting]) rests on
     the adjacent-level swap and is proved elsewhere; here it is an explicit
-    premise [sifting_ok] of the theorems (a definition over the model, not an
+    premise [sifting_ok'] of the theorems (a definition over the model, not an
     axiom).  Everything else -- the case analysis of the decorator, the
     aborted first attempt whose partial work stays in the manager, the second
     attempt with requests switched off, the re-enabling of requests -- is
@@ -11,7 +11,13 @@
     stated by variable NAME ([op_spec]), and then instantiated. *)
 From DD Require Export GC Quantify.
 
-(** ** Nodes that the user holds (directly or through a held node) *)
+(** ** Nodes that the user holds: the terminal and the nodes with an
+    external reference in the ledger [L] *)
+Definition heldn (L : positive → nat) : positive → Prop :=
+  fun n => n = 1%positive ∨ 0 < L n.
+
+(** nodes reachable from a held node (NOT preserved by sifting: a swap may
+    replace an inner node that nobody holds, see [sifting_ok_reach_false]) *)
 Definition ref_by (L : positive → nat) (s : st) (n : positive) : Prop :=
   n = 1%positive ∨ reach (succ s) (fun k => 0 < L k) n.
 
@@ -26,10 +32,22 @@ Definition keeps (K : positive → Prop) (s s' : st) : Prop :=
     Started on an [Inv] manager with exact counts and requests switched off,
     sifting either hits the iteration-order oracle error of the model (a tape
     that is not a permutation; no Python counterpart), or succeeds, keeps
-    [Inv] and the counts with the same ledger, keeps every externally
-    referenced node (same number) with the same function by variable name,
-    leaves requests switched off and the context flag untouched. *)
-Definition sifting_ok : Prop := ∀ s L r s',
+    [Inv] and the counts with the same ledger, keeps every HELD node (same
+    number) with the same function by variable name, leaves requests
+    switched off and the context flag untouched.  Nothing is claimed for
+    nodes that are not held themselves, even when reachable from a held
+    node: a swap may free such a node and build its replacement under
+    another number. *)
+Definition sifting_ok' : Prop := ∀ s L r s',
+  Inv s → Counts s L → last_len s = None →
+  reorder None s = (r, s') →
+  r = Err EOracle ∨
+  (r = Ok tt ∧ Inv s' ∧ Counts s' L ∧ last_len s' = None ∧ rctx s' = rctx s ∧
+   keeps (heldn L) s s').
+
+(** the same with "reachable from a held node" in place of "held": FALSE of
+    the model ([sifting_ok_reach_false] at the end of this file) *)
+Definition sifting_ok_reach : Prop := ∀ s L r s',
   Inv s → Counts s L → last_len s = None →
   reorder None s = (r, s') →
   r = Err EOracle ∨
@@ -117,6 +135,15 @@ Proof.
   - apply elem_of_dom. by apply (reach_dom s (fun k => 0 < L k)).
 Qed.
 
+Lemma heldn_ref_by L s n : Inv s → Counts s L → heldn L n → ref_by L s n.
+Proof.
+  intros HI [_ HC] [->|Hn]; [by left|right]. apply reach_root; [done|].
+  destruct (decide (n ∈ dom (succ s))) as [|Hd]; [done|]. rewrite (HC n Hd) in Hn. lia.
+Qed.
+
+Lemma heldn_valid L s u : Inv s → Counts s L → u ≠ 0%Z → heldn L (absn u) → valid s u.
+Proof. intros HI HC Hu Hh. apply (ref_by_valid L); [done|done|]. by apply heldn_ref_by. Qed.
+
 Lemma denv_grow s s' u ρ : extends s s' → Inv s → valid s u → denv s' u ρ = denv s u ρ.
 Proof.
   intros He HI Hv. unfold denv. destruct He as (?&?&El). rewrite <- El.
@@ -160,18 +187,18 @@ Qed.
 
 (** ** The decorator *)
 Theorem try_to_reorder_correct {A} (func : MS A) Pre Post s L r s' :
-  sifting_ok →
-  op_spec func (ref_by L s) Pre Post →
+  sifting_ok' →
+  op_spec func (heldn L) Pre Post →
   Inv s → Counts s L → Pre s → rctx s = false →
   try_to_reorder func s = (r, s') →
   r = Err EOracle ∨
   ∃ a, r = Ok a ∧ Inv s' ∧ Counts s' L ∧ rctx s' = false ∧
        (last_len s = None → last_len s' = None) ∧
        (is_Some (last_len s) → is_Some (last_len s')) ∧
-       keeps (ref_by L s) s s' ∧ Post s a s'.
+       keeps (heldn L) s s' ∧ Post s a s'.
 Proof.
   intros Hsift Hop HI HC HP Hctx.
-  set (K := ref_by L s) in *.
+  set (K := heldn L) in *.
   unfold try_to_reorder. cbn [bind get modify]. unfold bind at 1, catch at 1.
   set (s0 := s <| rctx := true |>).
   assert (HI0 : Inv s0) by (by apply Inv_rctx).
@@ -214,8 +241,7 @@ Proof.
   assert (HC3' : Counts s3' L) by (by apply (Counts_same s3)).
   assert (Hk3' : keeps K s s3').
   { apply (keeps_same_r K s s3); [by repeat split|].
-    apply (keeps_trans K (ref_by L s2) s s2 s3); [|done|done].
-    intros n. by apply ref_by_extends. }
+    by apply (keeps_trans K K s s2 s3). }
   assert (HP3 : Pre s3') by (by apply (pre_stable _ _ _ _ Hop s s3')).
   destruct (func s3') as [r4 s4] eqn:E4.
   destruct (spec_on _ _ _ _ Hop s3' r4 s4 HI3' HP3 eq_refl E4) as (HI4&He4&Hf4&HCs4&Hr4).
@@ -240,8 +266,8 @@ Qed.
 
 (** the internal signal never reaches the caller of a decorated operation *)
 Corollary try_to_reorder_no_signal {A} (func : MS A) Pre Post s L r s' :
-  sifting_ok →
-  op_spec func (ref_by L s) Pre Post →
+  sifting_ok' →
+  op_spec func (heldn L) Pre Post →
   Inv s → Counts s L → Pre s → rctx s = false →
   try_to_reorder func s = (r, s') →
   r ≠ Err ENeedsReordering.
@@ -285,16 +311,16 @@ Qed.
 (** C09 for [ite]: with dynamic reordering enabled (or not), whichever node
     creation the request fires at *)
 Theorem ite_dynamic s L g u v r s' :
-  sifting_ok →
+  sifting_ok' →
   Inv s → Counts s L → rctx s = false →
   valid s g → valid s u → valid s v →
-  ref_by L s (absn g) → ref_by L s (absn u) → ref_by L s (absn v) →
+  heldn L (absn g) → heldn L (absn u) → heldn L (absn v) →
   ite g u v s = (r, s') →
   r = Err EOracle ∨
   ∃ w, r = Ok w ∧ Inv s' ∧ Counts s' L ∧ rctx s' = false ∧
        (last_len s = None → last_len s' = None) ∧
        (is_Some (last_len s) → is_Some (last_len s')) ∧
-       keeps (ref_by L s) s s' ∧
+       keeps (heldn L) s s' ∧
        valid s' w ∧
        ∀ ρ, denv s' w ρ = if denv s g ρ then denv s u ρ else denv s v ρ.
 Proof.
@@ -341,7 +367,7 @@ Proof.
 Qed.
 
 Theorem var_dynamic s L name r s' :
-  sifting_ok →
+  sifting_ok' →
   Inv s → Counts s L → rctx s = false →
   is_Some (vars s !! name) →
   var name s = (r, s') →
@@ -349,7 +375,7 @@ Theorem var_dynamic s L name r s' :
   ∃ w, r = Ok w ∧ Inv s' ∧ Counts s' L ∧ rctx s' = false ∧
        (last_len s = None → last_len s' = None) ∧
        (is_Some (last_len s) → is_Some (last_len s')) ∧
-       keeps (ref_by L s) s s' ∧
+       keeps (heldn L) s s' ∧
        valid s' w ∧ ∀ ρ, denv s' w ρ = ρ name.
 Proof.
   intros Hs HI HC Hc Hn Hrun. change (var name) with (try_to_reorder (var_body name)) in Hrun.
@@ -601,16 +627,16 @@ Proof.
 Qed.
 
 Theorem quantify_dynamic s L u qvars fa r s' :
-  sifting_ok →
+  sifting_ok' →
   Inv s → Counts s L → rctx s = false →
-  valid s u → ref_by L s (absn u) →
+  valid s u → heldn L (absn u) →
   Forall (fun k => is_Some (vars s !! k)) qvars →
   quantify u true qvars fa s = (r, s') →
   r = Err EOracle ∨
   ∃ x, r = Ok x ∧ Inv s' ∧ Counts s' L ∧ rctx s' = false ∧
        (last_len s = None → last_len s' = None) ∧
        (is_Some (last_len s) → is_Some (last_len s')) ∧
-       keeps (ref_by L s) s s' ∧
+       keeps (heldn L) s s' ∧
        valid s' x ∧
        ∀ ρ, denv s' x ρ = true ↔ qsemv s fa (list_to_set qvars) u ρ.
 Proof.
@@ -849,16 +875,16 @@ Proof.
 Qed.
 
 Theorem cofactor_dynamic s L u values r s' :
-  sifting_ok →
+  sifting_ok' →
   Inv s → Counts s L → rctx s = false →
-  valid s u → ref_by L s (absn u) →
+  valid s u → heldn L (absn u) →
   Forall (fun p => is_Some (vars s !! p.1)) values →
   cofactor u true values s = (r, s') →
   r = Err EOracle ∨
   ∃ x, r = Ok x ∧ Inv s' ∧ Counts s' L ∧ rctx s' = false ∧
        (last_len s = None → last_len s' = None) ∧
        (is_Some (last_len s) → is_Some (last_len s')) ∧
-       keeps (ref_by L s) s s' ∧
+       keeps (heldn L) s s' ∧
        valid s' x ∧
        ∀ ρ, denv s' x ρ = denv s u (overridev (list_to_map (reverse values)) ρ).
 Proof.
@@ -873,12 +899,12 @@ Qed.
     itself; it reaches the decorated [ite]) *)
 From DD Require Import C01proof.
 
-Definition oref (L : positive → nat) (s : st) (o : option Z) : Prop :=
-  match o with Some x => ref_by L s (absn x) | None => True end.
+Definition oref (L : positive → nat) (o : option Z) : Prop :=
+  match o with Some x => heldn L (absn x) | None => True end.
 
-Lemma eval_operand_ref L s o u v w :
-  ref_by L s (absn u) → oref L s v → oref L s w →
-  ref_by L s (absn (eval_operand o u (default 0%Z v) (default 0%Z w))).
+Lemma eval_operand_ref L o u v w :
+  heldn L (absn u) → oref L v → oref L w →
+  heldn L (absn (eval_operand o u (default 0%Z v) (default 0%Z w))).
 Proof.
   intros Ku Kv Kw. induction o as [| | |o IH| |]; cbn [eval_operand].
   - done.
@@ -890,10 +916,10 @@ Proof.
 Qed.
 
 Theorem apply_with_dynamic tbl op u v w s L t r s' :
-  sifting_ok →
+  sifting_ok' →
   Inv s → Counts s L → rctx s = false →
   valid s u → ovalid s v → ovalid s w →
-  ref_by L s (absn u) → oref L s v → oref L s w →
+  heldn L (absn u) → oref L v → oref L w →
   arity_ok op v w = true →
   find_template tbl op = Some t → avail (template_uses t) v w →
   (∀ fa a b, t ≠ TQuant fa a b) →
@@ -902,7 +928,7 @@ Theorem apply_with_dynamic tbl op u v w s L t r s' :
   ∃ x, r = Ok x ∧ Inv s' ∧ Counts s' L ∧ rctx s' = false ∧
        (last_len s = None → last_len s' = None) ∧
        (is_Some (last_len s) → is_Some (last_len s')) ∧
-       keeps (ref_by L s) s s' ∧
+       keeps (heldn L) s s' ∧
        valid s' x ∧
        ∀ ρ, Some (denv s' x ρ) =
             template_sem t (denv s u ρ) (denv s (default 0%Z v) ρ) (denv s (default 0%Z w) ρ).
@@ -934,17 +960,17 @@ Proof.
 Qed.
 
 Theorem apply_dynamic s L op u v w r s' f :
-  sifting_ok →
+  sifting_ok' →
   Inv s → Counts s L → rctx s = false →
   op ∈ py_vocab → conn_sem op = Some f →
   valid s u → ovalid s v → ovalid s w → arity_ok op v w = true →
-  ref_by L s (absn u) → oref L s v → oref L s w →
+  heldn L (absn u) → oref L v → oref L w →
   apply op u v w s = (r, s') →
   r = Err EOracle ∨
   ∃ x, r = Ok x ∧ Inv s' ∧ Counts s' L ∧ rctx s' = false ∧
        (last_len s = None → last_len s' = None) ∧
        (is_Some (last_len s) → is_Some (last_len s')) ∧
-       keeps (ref_by L s) s s' ∧
+       keeps (heldn L) s s' ∧
        valid s' x ∧
        ∀ ρ, denv s' x ρ = f (denv s u ρ) (odenv s v ρ) (odenv s w ρ).
 Proof.
@@ -1016,3 +1042,75 @@ Example unheld_operand_lost :
   last_len (world_get w1 0) = Some 100 ∧
   bool_decide (is_Some (last_len (world_get (fst (step w1 0 o)) 0))) = true.
 Proof. by vm_compute. Qed.
+
+(** ** Why the premise speaks of HELD nodes only.
+    With "reachable from a held node" in place of "held" the premise is
+    false of the model.  Manager built by public calls: f = (v0 /\ v1) \/ v2
+    is node 7 and is held; its high child 6 = v1 \/ v2 and the variable
+    node 4 = v2 are reachable from 7 and not held.  Sifting succeeds, ends
+    in the original order, keeps 7 (same number, same function), but node 6
+    is freed and number 4 now carries v1 \/ v2. *)
+From DD Require Import Total.
+
+Definition rx_ops : list op :=
+  [OVar 0; OVar 1; OVar 2;
+   OApply "and" 2%Z (Some 3%Z) None; OApply "or" 5%Z (Some 4%Z) None;
+   OIncref 7%Z; OGc None].
+Definition rx_st : st :=
+  world_get (Total.run world_empty 0 (ONew [(0, 0); (1, 1); (2, 2)] :: rx_ops)) 0.
+
+Lemma rx_good : Good rx_st.
+Proof.
+  apply run_inv_from_new; [by vm_compute|].
+  cbn [rx_ops hist_ok caller_ok]. repeat split; by vm_compute.
+Qed.
+
+Theorem sifting_ok_reach_false : ¬ sifting_ok_reach.
+Proof.
+  intros H. destruct rx_good as (HI&Hll&L&HC).
+  assert (HL7 : 0 < L 7%positive).
+  { destruct HC as [HC1 _].
+    assert (succ rx_st !! 7%positive = Some (Triple 0 4 6)) as E7 by (by vm_compute).
+    assert (7%positive ∈ dom (succ rx_st)) as Hd
+      by (apply (proj2 (elem_of_dom (succ rx_st) 7%positive)); by rewrite E7).
+    specialize (HC1 _ Hd).
+    assert (refc rx_st !! 7%positive = Some 1) as E1 by (by vm_compute).
+    assert (indeg (succ rx_st) 7%positive = 0) as E2 by (by vm_compute).
+    rewrite E1, E2 in HC1. injection HC1. lia. }
+  assert (Hreach : reach (succ rx_st) (fun k => 0 < L k) 6%positive).
+  { change 6%positive with (absn (t_hi (Triple 0 4 6))).
+    apply (reach_hi _ _ 7%positive); [|by vm_compute|done].
+    apply reach_root; [done|].
+    apply (proj2 (elem_of_dom (succ rx_st) 7%positive)). exists (Triple 0 4 6). by vm_compute. }
+  assert (Hv6 : valid rx_st 6).
+  { split; [done|]. exists (Triple 1 4 1). by vm_compute. }
+  assert (Hout : fst (reorder None rx_st) = Ok tt ∧
+                 succ (snd (reorder None rx_st)) !! 6%positive = None)
+    by (vm_compute; split; reflexivity).
+  destruct (reorder None rx_st) as [r s'] eqn:E. cbn [fst snd] in Hout.
+  destruct Hout as [-> Hgone].
+  destruct (H rx_st L (Ok tt) s' HI HC Hll E) as [[=]|(_&_&_&_&_&_&Hk)].
+  destruct (Hk 6%Z ltac:(done) (or_intror Hreach) Hv6) as [[_ [t Ht]] _].
+  change (absn 6) with 6%positive in Ht. congruence.
+Qed.
+
+(** the same in a dynamic-reordering run: the forced trigger fires inside
+    [apply "xor" f TRUE]; afterwards the held node 7 has its number and its
+    truth table, the result is [~f], requests are on again -- but the
+    reachable, unheld node 6 is gone and number 4 denotes another function *)
+Example unheld_inner_node_replaced :
+  let w0 := run_ops [ONew [(0, 0); (1, 1); (2, 2)]; OVar 0; OVar 1; OVar 2;
+                     OApply "and" 2 (Some 3%Z) None; OApply "or" 5 (Some 4%Z) None;
+                     OIncref 7; OConfigure (Some true)] in
+  let w1 := fst (step w0 0 (OSetTrig (Some 1))) in
+  let '(wB, rB) := step w1 0 (OApply "xor" 7 (Some 1%Z) None) in
+  let s := world_get w0 0 in let sB := world_get wB 0 in
+  succ s !! 7%positive = Some (Triple 0 4 6) ∧ succ s !! 6%positive = Some (Triple 1 4 1) ∧
+  refc s !! 7%positive = Some 1 ∧
+  rB = Ok (VZ (-7)) ∧ trig sB = None ∧ last_len sB = Some 8 ∧
+  map_to_list (vars sB) = map_to_list (vars s) ∧
+  table 3 sB (Ok (VZ 7)) = table 3 s (Ok (VZ 7)) ∧
+  succ sB !! 6%positive = None ∧
+  succ sB !! 7%positive = Some (Triple 0 3 4) ∧
+  mem 4 sB = true ∧ table 3 sB (Ok (VZ 4)) ≠ table 3 s (Ok (VZ 4)).
+Proof. vm_compute. by split_and!. Qed.
